@@ -136,6 +136,36 @@ Section AES.
     rewrite upto_ok by lia. f_equal. unfold padded. apply firstn_app_len. fold padded. rewrite Lp. lia.
   Qed.
 
+  (* any legal padding (RFC 7296 s3.14: 0..255 arbitrary pad octets, then the pad length), any IV: accepted *)
+  Theorem aes_decrypt_any_padding key p iv pad :
+    length iv = 16%nat -> (length pad <= 255)%nat -> ((length p + length pad + 1) mod 16 = 0)%nat ->
+    let padded := p ++ pad ++ [n2b (N.of_nat (length pad))] in
+    aes_decrypt aes_dec key (iv ++ cbc_enc (aes_enc key) (length padded / 16) iv padded) = Ok p.
+  Proof.
+    destruct H as (El & DEk & _). intros L2 Hpl M16 padded.
+    assert (Lp : length padded = (length p + length pad + 1)%nat) by (unfold padded; rewrite !app_length; cbn [length]; lia).
+    assert (Dv : length padded = (16 * (length padded / 16))%nat).
+    { rewrite Lp. pose proof (Nat.div_mod (length p + length pad + 1) 16). lia. }
+    assert (Lc : length (cbc_enc (aes_enc key) (length padded / 16) iv padded) = length padded).
+    { rewrite (cbc_enc_length (aes_enc key) (aes_dec key) (fun b => El key b) (fun b Hb => DEk key b Hb)). lia. }
+    unfold aes_decrypt. rewrite app_length, L2, Lc.
+    destruct (16 + length padded <? 16)%nat eqn:E1; [lia|].
+    rewrite upto_app by (symmetry; exact L2). cbn [bind].
+    rewrite from_app by (symmetry; exact L2). cbn [bind]. rewrite Lc.
+    destruct (length padded =? 0)%nat eqn:E2; [lia|].
+    replace (length padded mod 16)%nat with 0%nat by (rewrite Lp; lia).
+    change (0 =? 0)%nat with true. cbn [negb].
+    rewrite (cbc_dec_enc (aes_enc key) (aes_dec key) (fun b => El key b) (fun b Hb => DEk key b Hb)); [| exact L2 | exact Dv].
+    assert (Last : idx padded (length padded - 1) = Ok (N.of_nat (length pad))).
+    { unfold idx, padded. rewrite app_assoc. rewrite nth_error_app2 by (rewrite !app_length; cbn; lia).
+      replace (length ((p ++ pad) ++ [n2b (N.of_nat (length pad))]) - 1 - length (p ++ pad))%nat with 0%nat
+        by (rewrite !app_length; cbn; lia).
+      cbn [nth_error]. rewrite b2n_n2b_small by lia. reflexivity. }
+    rewrite Last. cbn [bind]. rewrite Nat2N.id.
+    match goal with |- context[if ?c then _ else _] => destruct c eqn:E3 end; [lia|].
+    rewrite upto_ok by lia. f_equal. unfold padded. apply firstn_app_len. fold padded. rewrite Lp. lia.
+  Qed.
+
   (* a failing random source gives an error, never a ciphertext *)
   Theorem aes_encrypt_fault key p s :
     (exists k, (k < pad_of p + 16)%nat /\ (nth_error s k = Some None \/ nth_error s k = None)) ->
